@@ -108,6 +108,7 @@ func c07(c *core.Ctx) {
 	c.Rule("C07.sizefix", "in signAndEncrypt the MessageSize patch (PutUint32(b[4:], headerLength+encryptedLength)) comes after all padding bytes were appended and before the signature is computed", 2)
 	c.Rule("C07.lockstep", "signAndEncrypt encrypts under exactly the condition under which verifyAndDecrypt decrypts (same normalised condition over SecurityMode and isAsymmetric), likewise for the padding branch; the extra-padding test uses the peer-key signature length on the sender and the own-key length on the receiver", 3)
 
+	c06Overhead(c, "C07.overhead")
 	c.Rule("C07.retry", "verifyAndDecrypt (and what it calls in uasc) never writes into the chunk bytes it was handed (C20.nowrite applies verbatim): readChunk offers the same bytes to every token instance in turn, so an attempt under the wrong keys must leave them intact for the instance that matches", 1)
 	{
 		tmp := core.NewCtx(c.Prop, c.Tier, c.P)
